@@ -78,6 +78,7 @@ var shapes = []string{
 	"only-unexported-fields", "defined-string", "defined-map-slice-func", "interface", "odd-field-types", "embeds-unexported-and-non-struct",
 	"fields-of-generic-instantiations-and-local-named-types",
 	"several-embedded-structs-first-one-documented",
+	"structs-composed-only-of-embedded-structs",
 }
 
 type Prog struct {
@@ -191,6 +192,19 @@ func (p Prog) source(pkg string) (src, check string) {
 		expect("T.By (delegated to the undocumented embed Audit)", "&T{Stamp: new(Stamp)}", []string{"By"}, fieldDoc("By"), true)
 		expect("T.At (delegated to the undocumented embedded pointer Stamp)", "&T{Stamp: new(Stamp)}", []string{"At"}, fieldDoc("At"), true)
 		expect("T.NoSuch", "&T{Stamp: new(Stamp)}", []string{"NoSuch"}, nil, false)
+	case "structs-composed-only-of-embedded-structs":
+		// an embedded exported struct IS an exported field: such structs are covered and delegate
+		b.WriteString(td("T") + "type T struct {\n\tAudit\n}\n\n// Full is composed of embeds only.\ntype Full struct {\n\tAudit\n\t*Stamp\n}\n\n// Wrapped has a field and embeds Full.\ntype Wrapped struct {\n\tName string\n\tFull\n}\n\n// Audit is embedded.\ntype Audit struct {\n" + fd("By") + "\tBy string\n}\n\n// Stamp is embedded by pointer.\ntype Stamp struct {\n" + fd("At") + "\tAt int\n}\n")
+		expect("T (its own doc, not the promoted method of Audit)", "new(T)", nil, typeDoc("T"), true)
+		expect("T.By", "new(T)", []string{"By"}, fieldDoc("By"), true)
+		expect("T.NoSuch", "new(T)", []string{"NoSuch"}, nil, false)
+		expect("Full", "&Full{Stamp: new(Stamp)}", nil, []string{"is composed of embeds only."}, true)
+		expect("Full.By", "&Full{Stamp: new(Stamp)}", []string{"By"}, fieldDoc("By"), true)
+		expect("Full.At", "&Full{Stamp: new(Stamp)}", []string{"At"}, fieldDoc("At"), true)
+		expect("Wrapped.Name", "&Wrapped{Full: Full{Stamp: new(Stamp)}}", []string{"Name"}, []string{}, true)
+		expect("Wrapped.By (through Full)", "&Wrapped{Full: Full{Stamp: new(Stamp)}}", []string{"By"}, fieldDoc("By"), true)
+		expect("Wrapped.At (through Full)", "&Wrapped{Full: Full{Stamp: new(Stamp)}}", []string{"At"}, fieldDoc("At"), true)
+		expect("Audit", "new(Audit)", nil, []string{"is embedded."}, true)
 	case "embeds-unexported-and-non-struct":
 		b.WriteString(td("T") + "type T struct {\n\tinner\n\tStr\n" + fd("F") + "\tF int\n}\n\ntype inner struct {\n\t// IF doc\n\tIF int\n}\n\n// Str is a defined string.\ntype Str string\n")
 		expect("T", "new(T)", nil, typeDoc("T"), true)
@@ -363,7 +377,7 @@ func replay(c *core.Ctx, raw json.RawMessage) {
 func init() {
 	core.Register(&core.Prop{
 		ID: "C16", Level: "model_checking", Run: run, Replay: replay, Shards: 4,
-		Rule: "13 type shapes (exported/unexported/generic structs, embedding by value and by pointer, only-unexported fields, defined string/map/slice/func, interface, anonymous/empty/foreign/pointer field types, embedding of unexported and non-struct types) x 14 type-doc texts x 11 field-doc texts (quotes, backslashes, backquotes, %, @name', Unicode, blank line, tag line, leading name, name twice, longer word with the name as prefix); thorough: full product, quick: the diagonal + everything against none/plain/leading-name + a third of the rest. Each package is generated twice (byte-identical), compiled with the package and a harness-written check file, and run: RuntimeDoc() and RuntimeDoc(name) for every field, delegated field and unknown name vs the doc lines the harness wrote. Non-trivial = some doc text present; states = (shape, failed?)",
+		Rule: "14 type shapes (exported/unexported/generic structs, embedding by value and by pointer, only-unexported fields, defined string/map/slice/func, interface, anonymous/empty/foreign/pointer field types, embedding of unexported and non-struct types) x 14 type-doc texts x 11 field-doc texts (quotes, backslashes, backquotes, %, @name', Unicode, blank line, tag line, leading name, name twice, longer word with the name as prefix); thorough: full product, quick: the diagonal + everything against none/plain/leading-name + a third of the rest. Each package is generated twice (byte-identical), compiled with the package and a harness-written check file, and run: RuntimeDoc() and RuntimeDoc(name) for every field, delegated field and unknown name vs the doc lines the harness wrote. Non-trivial = some doc text present; states = (shape, failed?)",
 		Assumptions: []string{
 			"field docs starting with the field name, embedded fields with their own doc, [[embed]] lines and lines starting with go: are outside the alphabet",
 			"'leading type name removed' is read as: the first word is the name",
